@@ -239,7 +239,7 @@ class State:
         s.trace = [Event(e.name, [_cp(a, memo) for a in e.args], _cp(e.ret, memo), dict(e.info)) for e in self.trace]
         s.status, s.msg = self.status, self.msg
         s.ret = _cp(self.ret, memo)
-        s.ghost = {k: (_cp(v, memo) if isinstance(v, (V, Cell, list, dict, tuple)) else v) for k, v in self.ghost.items()}
+        s.ghost = {k: (_cp(v, memo) if isinstance(v, (V, Cell, list, dict, tuple)) else (set(v) if isinstance(v, set) else v)) for k, v in self.ghost.items()}
         for f in self.frames:
             g = Frame(f.fn)
             g.bb, g.ret_bb, g.visits, g.on_return, g.stop = f.bb, f.ret_bb, dict(f.visits), f.on_return, f.stop
